@@ -229,6 +229,55 @@ def _field_operators(model, rep):
                             f"JaxDiscreteField")
 
 
+REAL_DTYPES = {"float", "np.float64", "np.float32", "np.double",
+               "jnp.float64", "jnp.float32", "'float64'", "'float32'",
+               "'float'", "'d'", "np.float_", "np.single"}
+
+
+def _helper_dtypes(model, rep):
+    """Helpers act entrywise on whatever field their input is over (real or
+    complex; float32 or float64).  A result buffer or conversion with a
+    *fixed real dtype* drops the imaginary part of complex input (PML
+    tensors, complex material data) with a warning at most.  Expected
+    count: zero."""
+    R5 = "C20-R5"
+    n = 0
+    for mod in ("skfem.helpers", "skfem.autodiff.helpers"):
+        m = model.module(mod)
+        for fn in model.all_functions():
+            if fn.module is not m:
+                continue
+            n += 1
+            for node in ast.walk(fn.node):
+                if not isinstance(node, ast.Call):
+                    continue
+                kws = [k for k in node.keywords if k.arg == "dtype"]
+                bad = None
+                if kws and ast.unparse(kws[0].value) in REAL_DTYPES:
+                    bad = f"dtype={ast.unparse(kws[0].value)}"
+                if isinstance(node.func, ast.Attribute) and \
+                        node.func.attr == "astype" and node.args and \
+                        ast.unparse(node.args[0]) in REAL_DTYPES:
+                    bad = f"astype({ast.unparse(node.args[0])})"
+                if ast.unparse(node.func) in ("np.real", "jnp.real",
+                                              "np.float64", "float"):
+                    if node.args and not isinstance(node.args[0],
+                                                    ast.Constant):
+                        bad = ast.unparse(node.func) + "(...)"
+                if bad:
+                    rep.fail(R5, fn.path, fn.short(),
+                             f"{mod.rsplit('.', 1)[0].split('.')[-1]}."
+                             f"{fn.name}:{bad}",
+                             f"'{ast.unparse(node)[:70]}' fixes a real "
+                             f"dtype inside a helper: for complex-valued "
+                             f"tensors the imaginary part of the result is "
+                             f"dropped (the helper no longer computes its "
+                             f"mathematical definition over the input's "
+                             f"field)", node.lineno)
+    rep.ok(R5, "helpers:dtype", f"{n} helper functions: results take the "
+           f"dtype of their input (no fixed real dtype)")
+
+
 def run(model: Model, rep, tier: str) -> None:
     rep.rule("C20-R1", "helper(result on generic n x n tensors) == its "
              "mathematical definition, as polynomial identity in the entries")
@@ -242,6 +291,8 @@ def run(model: Model, rep, tier: str) -> None:
     rep.rule("C20-R4", "operator methods of the autodiff field wrapper "
              "compute value(u) op c, reflected ones c op value(u)")
     _field_operators(model, rep)
+    rep.rule("C20-R5", "helpers never fix a real dtype for their results")
+    _helper_dtypes(model, rep)
     results: Dict[tuple, Any] = {}
     for n in (2, 3):
         sp = specs(n)
@@ -321,6 +372,9 @@ def run(model: Model, rep, tier: str) -> None:
 _H, _J = "skfem/helpers.py", "skfem/autodiff/helpers.py"
 _AD = "skfem/autodiff/__init__.py"
 MUTANTS = [
+    ("numpy inv allocates a float64 result",
+     ("skfem/helpers.py", "    invA = zeros_like(A)\n",
+      "    invA = zeros_like(A, dtype=np.float64)\n"), "C20-R5"),
     ("reflected division written like the direct one",
      (_AD, "            return other.value / self.value\n"
       "        return other / self.value",
